@@ -106,7 +106,7 @@ fn to_vec(e: &Env, p: &[H32]) -> SVec<BytesN<32>> {
 }
 
 fn verifier_sweep(cfg: &Cfg, rep: &mut Report) {
-    let maxn = cfg.pick(65usize, 257);
+    let maxn = cfg.pick(65usize, 400);
     let mut k = 0u64;
     for keccak in [false, true] {
         for positional in [false, true] {
@@ -329,9 +329,9 @@ fn distributor(cfg: &Cfg, rep: &mut Report, h: u64, variant: u32) {
 }
 
 pub fn run(cfg: &Cfg, rep: &mut Report) {
-    rep.rule = "(a) for both hashers and both forms (sorted-pair, positional with index), every tree size 1..=65 (thorough 257) with fresh random leaves (split over shards): every leaf (beyond 40 leaves: first, last and a sample) with its honest proof from an independent tree builder, and every single corruption: one bit in each proof element, adjacent swap, first/last dropped, last duplicated, element appended, other leaf, random leaf, leaf bit, random root, root bit, every other index < 2^len (sampled beyond 64), index = 2^len and u32::MAX; (b) distributor histories on a wrapper (Keccak sorted, Keccak indexed, Sha256 indexed) and the airdrop example: valid claims, repeats, proofs of other indices, wrong amount/receiver/index, empty proof, root changes. Distinct case = (hasher, form, tree-size class, leaf position, corruption kind, outcome).".into();
+    rep.rule = "(a) for both hashers and both forms (sorted-pair, positional with index), every tree size 1..=65 (thorough 400) with fresh random leaves (split over shards): every leaf (beyond 40 leaves: first, last and a sample) with its honest proof from an independent tree builder, and every single corruption: one bit in each proof element, adjacent swap, first/last dropped, last duplicated, element appended, other leaf, random leaf, leaf bit, random root, root bit, every other index < 2^len (sampled beyond 64), index = 2^len and u32::MAX; (b) distributor histories on a wrapper (Keccak sorted, Keccak indexed, Sha256 indexed) and the airdrop example: valid claims, repeats, proofs of other indices, wrong amount/receiver/index, empty proof, root changes. Distinct case = (hasher, form, tree-size class, leaf position, corruption kind, outcome).".into();
     verifier_sweep(cfg, rep);
-    let nh = cfg.pick(30u64, 150);
+    let nh = cfg.pick(30u64, 1500);
     for v in 0..4u32 {
         for k in 0..nh {
             let h = 10_000 + v as u64 * 1000 + k;
